@@ -24,10 +24,16 @@ fn dens_views<S: Dens>(m: usize, items: &[u64]) -> Result<Vec<Vec<u64>>, String>
     .and_then(|r| r)
 }
 
-fn opt<F: FBits, H: HName>(m: usize, items: &[u64]) -> Result<Vec<Vec<u64>>, String> {
+fn opt<F: FBits, H: HName>(m: usize, items: &[u64]) -> Result<Vec<Vec<u64>>, String>
+where
+    rand::distr::StandardUniform: rand::distr::Distribution<F>,
+{
     dens_views::<OptDensMinHash<F, u64, H>>(m, items)
 }
-fn rev<F: FBits, H: HName>(m: usize, items: &[u64]) -> Result<Vec<Vec<u64>>, String> {
+fn rev<F: FBits, H: HName>(m: usize, items: &[u64]) -> Result<Vec<Vec<u64>>, String>
+where
+    rand::distr::StandardUniform: rand::distr::Distribution<F>,
+{
     dens_views::<RevOptDensMinHash<F, u64, H>>(m, items)
 }
 
@@ -231,6 +237,27 @@ pub fn run(ctx: &Ctx) -> i32 {
             }
         }
     }
+    // ---- an item whose uniform value is exactly 0.0 (found by scanning 2^25 items through the real f32 sketchers) belongs to
+    // its set like any other: two sets that share it collide at its bin
+    {
+        use crate::props::c09::{single_item_scan, zero_draw_streams};
+        let n: u64 = ctx.pick(1 << 25, 1 << 27);
+        macro_rules! zd {
+            ($t:ty, $tag:expr) => {
+                match single_item_scan::<$t>(base << 9, n) {
+                    Err(w) => ctx.violation(&format!("C08-sketch-failure:{}", $tag), &w, json!({"kind": "zero-draw"})),
+                    Ok(z) => {
+                        evals += n;
+                        if let Some(w) = zero_draw_streams::<$t>(&z, base << 2) {
+                            ctx.violation(&format!("C08-zero-draw:{}", $tag), &format!("two sets sharing an item whose uniform value is 0.0 do not collide at its bin: {}", w), json!({"kind": "zero-draw"}));
+                        }
+                    }
+                }
+            };
+        }
+        zd!(OptDensMinHash<f32, u64, FnvHasher>, "OptDensMinHash<f32,Fnv>");
+        zd!(RevOptDensMinHash<f32, u64, FnvHasher>, "RevOptDensMinHash<f32,Fnv>");
+    }
     let (sevals, sdetails) = structured_labellings(ctx, base, ctx.pick(300, 3000));
     evals += sevals;
     println!("C08 structured labellings: {} configurations", sdetails.len());
@@ -248,7 +275,7 @@ pub fn run(ctx: &Ctx) -> i32 {
         "exhaustive_scope": "the identity enumerates every labelling of every shape by the block; the partition part is a finite-population statement",
         "evaluations": totals.0 + evals,
         "distinct_nontrivial": totals.1,
-        "rule": "for OptDensMinHash and RevOptDensMinHash (f32/f64 float view, u64 view, u32 view; Fnv and no-op hashers), m in {1,2,3,5,8,16,33,64} (from m << |S| to m = 16|S|, > 90% of bins densified), every shape with union <=4 (5) and EVERY assignment of block identifiers (10 (13) ids, two blocks): per position and view, collisions * u == triples * |A∩B| exactly (a broken identity is arbitrated on 2e5 fresh labellings before it is reported); distinct = distinct subsets sketched; plus the distinctness of the per-item uniform value over 2^18 (2^21) items for the f64 sketchers, and 6 large-set shapes x 4 variants x 3 views on T disjoint labellings within 6 standard errors of J",
+        "rule": "for OptDensMinHash and RevOptDensMinHash (f32/f64 float view, u64 view, u32 view; Fnv and no-op hashers), m in {1,2,3,5,8,16,33,64} (from m << |S| to m = 16|S|, > 90% of bins densified), every shape with union <=4 (5) and EVERY assignment of block identifiers (10 (13) ids, two blocks): per position and view, collisions * u == triples * |A∩B| exactly (a broken identity is arbitrated on 2e5 fresh labellings before it is reported); distinct = distinct subsets sketched; plus the distinctness of the per-item uniform value over 2^18 (2^21) items for the f64 sketchers, 6 large-set shapes x 4 variants x 3 views on T disjoint labellings within 6 standard errors of J, and streams containing an item whose f32 uniform value is exactly 0.0 (witnesses found by scanning 2^25 (2^27) items through the real code): sets sharing it collide at its bin",
         "identity": idetails,
         "identity_subset_triples": totals.0,
         "identity_comparisons": totals.2,
